@@ -260,6 +260,8 @@ Definition canonical (kf : name_key) (e : endian) (d : bytes) (ptrs : list (N * 
   d1 <- poke_all e d ptrs ;;
   d2 <- poke_text e tstart items d1 text ;;
   let fsz := 32 + lenN d + 4 * lenL ptab + 4 * lenL ltab + lenN (tsection items) in
+  (* the format stores every size in 32 bits: no canonical image exists above u32::MAX *)
+  _ <- guard (fsz <=? 4294967295) EOther ;;
   Ok (enc e 4 fsz ++ enc e 4 (lenN d) ++ enc e 4 (lenL ptab) ++ enc e 4 (lenL ltab / 2) ++ zeros 16
       ++ d2 ++ u32s e ptab ++ u32s e ltab ++ tsection items).
 
@@ -315,11 +317,10 @@ Theorem serialize_is_canonical kf m a :
   keys_separate kf (a_labels a) ->
   a_cstrs a = [] ->
   Forall (fun p => fst p < U32) (a_text a) ->
-  canonical_size kf (a_endian a) (a_data a) (isort key_leb (a_ptrs a)) (isort key_leb (a_text a)) (isort key_leb (a_labels a)) < U32 ->
   serialize_k kf m a =
     canonical kf (a_endian a) (a_data a) (isort key_leb (a_ptrs a)) (isort key_leb (a_text a)) (isort key_leb (a_labels a)).
 Proof.
-  intros Hsep Hcs Hcells Hfit. unfold serialize_k, canonical. rewrite Hcs.
+  intros Hsep Hcs Hcells. unfold serialize_k, canonical. rewrite Hcs.
   change (isort (fun x y : bytes * list N => bytes_leb (fst x) (fst y)) []) with (@nil (bytes * list N)).
   cbn [cstr_pool]. rewrite app_nil_r.
   change (pad_to 4 (p_raw pool_empty)) with (@nil N). change (lenN []) with 0.
@@ -331,7 +332,7 @@ Proof.
   assert (Hlab : labels' = match e with LE => isort key_leb (a_labels a) | BE => isort (label_leb_be_k kf) (isort key_leb (a_labels a)) end).
   { unfold labels', label_leb. destruct e; [reflexivity|].
     apply isort_labels_be_perm_invariant_sep; [exact Hsep | apply isort_perm]. }
-  rewrite <- Hlab. unfold canonical_size in Hfit. fold e ptrs text in Hfit. rewrite <- Hlab in Hfit. clear Hlab.
+  rewrite <- Hlab. clear Hlab.
   destruct (poke_all e (a_data a) ptrs) as [d1|er|k]; cbn [bind]; try reflexivity.
   (* labels *)
   destruct (emit_labels_spec labels' pool_empty [] [] pool_is_empty) as [Hp1 Hl1]. cbn zeta in Hp1, Hl1.
@@ -373,23 +374,30 @@ Proof.
   destruct (poke_text e tstart items d1 text) as [d2|er|k]; cbn [bind]; try reflexivity.
   rewrite Hptab. fold ptab.
   destruct Hp2 as (Hraw & Hlen & _ & _). rewrite Hraw, Hlen, Hrl.
-  (* every number written fits in 32 bits *)
+  (* the guard: both sides compare the same number with u32::MAX; behind it every number written fits in 32 bits *)
   set (L := label_entries items labels') in *. set (T := tsection items) in *.
-  assert (Hfit' : 32 + lenN (a_data a) + 4 * lenL ptab + 4 * lenL L + lenN T < U32).
-  { rewrite Hlp. unfold lenL in Hfit. rewrite map_length.
-    assert (El : length text = length (a_text a)) by (unfold text; symmetry; apply Permutation_length, isort_perm).
-    rewrite El in Hfit. rewrite <- Hitems in Hfit. fold L T in Hfit. unfold lenL. lia. }
   unfold size. unfold lenL in *.
-  rewrite (trunc_small (lenN (a_data a))) by lia. change (trunc_w 32 0) with 0.
-  rewrite add_w_ok by (unfold maxw; change (2 ^ 32) with U32; lia). cbn [bind].
+  replace (lenN (a_data a) + 0 + N.of_nat (length ptab) * 4 + N.of_nat (length L) * 4 + lenN T + 32)
+    with (32 + lenN (a_data a) + 4 * N.of_nat (length ptab) + 4 * N.of_nat (length L) + lenN T) by lia.
+  destruct (N.leb_spec (32 + lenN (a_data a) + 4 * N.of_nat (length ptab) + 4 * N.of_nat (length L) + lenN T) 4294967295) as [Hfit'|Hbig];
+    cbn [guard bind]; [|reflexivity].
+  rewrite (trunc_small (lenN (a_data a))) by (unfold U32; lia). change (trunc_w 32 0) with 0.
+  rewrite add_w_ok by (unfold maxw; lia). cbn [bind].
   rewrite !trunc_small.
-  - cbn [app]. f_equal.
-    replace (lenN (a_data a) + 0 + N.of_nat (length ptab) * 4 + N.of_nat (length L) * 4 + lenN T + 32)
-      with (32 + lenN (a_data a) + 4 * N.of_nat (length ptab) + 4 * N.of_nat (length L) + lenN T) by lia.
-    rewrite N.add_0_r. reflexivity.
-  - assert (N.of_nat (length L) / 2 <= N.of_nat (length L)) by (apply N.div_le_upper_bound; lia). lia.
-  - lia.
-  - lia.
+  - cbn [app]. f_equal. rewrite N.add_0_r. reflexivity.
+  - assert (N.of_nat (length L) / 2 <= N.of_nat (length L)) by (apply N.div_le_upper_bound; lia). unfold U32. lia.
+  - unfold U32. lia.
+  - unfold U32. lia.
+Qed.
+
+(* a canonical image exists only below 4 GiB; in particular its data region is shorter than 2^32 *)
+Lemma canonical_ok_data_small kf e d ptrs text labels f : canonical kf e d ptrs text labels = Ok f -> lenN d < U32.
+Proof.
+  unfold canonical. cbv zeta. intros H.
+  apply bind_Ok_inv in H. destruct H as (d1 & _ & H). apply bind_Ok_inv in H. destruct H as (d2 & _ & H).
+  apply bind_Ok_inv in H. destruct H as ([] & G & _). unfold guard in G.
+  match type of G with (if ?c then _ else _) = _ => destruct c eqn:Ec end; [|discriminate].
+  apply N.leb_le in Ec. unfold U32. lia.
 Qed.
 
 (* the two usual ways to meet [keys_separate]: a key function injective on the label names of the archive, or
@@ -398,7 +406,6 @@ Corollary serialize_is_canonical_inj kf m a :
   key_injective_on kf (label_names_of (a_labels a)) ->
   a_cstrs a = [] ->
   Forall (fun p => fst p < U32) (a_text a) ->
-  canonical_size kf (a_endian a) (a_data a) (isort key_leb (a_ptrs a)) (isort key_leb (a_text a)) (isort key_leb (a_labels a)) < U32 ->
   serialize_k kf m a =
     canonical kf (a_endian a) (a_data a) (isort key_leb (a_ptrs a)) (isort key_leb (a_text a)) (isort key_leb (a_labels a)).
 Proof. intros H. exact (serialize_is_canonical kf m a (keys_separate_inj kf _ H)). Qed.
@@ -406,7 +413,6 @@ Corollary serialize_is_canonical_maps kf m a :
   NoDup (map fst (a_labels a)) ->
   a_cstrs a = [] ->
   Forall (fun p => fst p < U32) (a_text a) ->
-  canonical_size kf (a_endian a) (a_data a) (isort key_leb (a_ptrs a)) (isort key_leb (a_text a)) (isort key_leb (a_labels a)) < U32 ->
   serialize_k kf m a =
     canonical kf (a_endian a) (a_data a) (isort key_leb (a_ptrs a)) (isort key_leb (a_text a)) (isort key_leb (a_labels a)).
 Proof. intros H. exact (serialize_is_canonical kf m a (keys_separate_nodup kf _ H)). Qed.
